@@ -11,12 +11,16 @@ import (
 
 	"verif/harness/core"
 	"verif/harness/extract"
-	_ "verif/harness/props"
+	"verif/harness/props"
 )
 
 func main() {
 	if len(os.Args) >= 2 && os.Args[1] == "--fingerprints" {
 		extract.PrintFingerprints(core.RepoRoot())
+		return
+	}
+	if len(os.Args) >= 2 && os.Args[1] == "--clzone" {
+		props.ClzoneChild()
 		return
 	}
 	if len(os.Args) >= 2 && os.Args[1] == "--extract" {
